@@ -80,7 +80,7 @@ func UnmarshalFeature(data []byte) (*Feature, error) {
 // UnmarshalJSON handles the correct unmarshalling of the data
 // into the orb.Geometry types.
 func (f *Feature) UnmarshalJSON(data []byte) error {
-	if bytes.Equal(data, []byte(`null`)) {
+	if bytes.Equal(bytes.TrimSpace(data), []byte(`null`)) {
 		*f = Feature{}
 		return nil
 	}
